@@ -3,7 +3,7 @@
 import json, subprocess
 
 HOOK_COMMITS = ["e053b92", "db39081", "909497b", "a3ef4cc"]
-FIX_COMMITS = ["d1834d6", "696a10e", "54f6b98", "8cadbec", "1d570ec", "ada398b", "3cdf850", "86f4ed9", "cac2ae1", "749f9e1", "6852bbb"]
+FIX_COMMITS = ["d1834d6", "696a10e", "54f6b98", "8cadbec", "1d570ec", "ada398b", "3cdf850", "86f4ed9", "cac2ae1", "749f9e1", "6852bbb", "79a1448", "10810c0", "76552f0", "f89c303", "e2f472c"]
 
 NOTE_COMMON = ("trusted base: tokio current-thread scheduler + paused clock, the simnet link, the refproto reference codec/model; "
                "interleavings explored at task-poll granularity on one thread; a clean batch is evidence, not proof")
@@ -21,6 +21,10 @@ CHECKS = {
             "deterministic simulation; exhaustive enumeration of event positions, seeded schedules, reference = completed sends"),
     "C12": ("exploration", "§4 C12", "served counter/register object under every server flavour (Server, ServerRefMut, ServerShared(Mut) spawn on/off, ReqReceiver, by-value) and RFn/RFnMut/RFnOnce; 1-4 clients (clones, remote, two links), <= 14 calls with unique ids; oracle = exactly-one outcome per call checked against the callee's execution log (no foreign/duplicate/wrong-argument execution, Ok(r) => one completed execution with result r, error => at most one), &mut executions never overlap, Wing-Gong linearizability search of the client history against a sequential counter; link-cut sub-batch; self-test with a deliberately non-atomic served object",
             "deterministic simulation + fault injection; execution-log oracle and linearizability checker over invoke/return histories"),
+    "C13": ("exploration", "§4 C13", "each observable collection (vec, deque, hash map, hash set, list): random initial content, 3-40 steps over the full mutating API incl. no-ops, entry/iterator/reference mutation, retain, resize, swap-remove, done; subscriptions (snapshot and incremental) at any step; mirrors local, 1-2 hops remote, re-subscribed from a mirror, and hand-consumed event streams; oracle = at every quiescence mirror == hand-replayed stream == observable == std reference model, is_done iff done(), is_complete eventually, exact event counts",
+            "deterministic simulation; reference-model oracle (std collection) compared at quiescence, seeded op sequences and schedules"),
+    "C14": ("exploration", "§4 C14", "fast mutator with event buffers 1-3, slow/remote/cut-off mirrors and raw subscriptions, collection dropped before done, small mirror max_size, several subscribers, lists with back-pressure; oracle = every Ok view equals some historic state S_j (monotone per mirror), errors are sticky and explained (Lagged only after overflow, Closed only after drop-before-done, MaxSizeExceeded only above the limit, Remote* only after a link fault), list subscribers receive every element exactly once in order",
+            "deterministic simulation + fault injection; history oracle (views must be historic states, errors must be explained)"),
     "C15": ("exploration", "§4 C15", "watch channels over chains of 2-4 endpoints; <= 20 strictly increasing values; receivers cloned/subscribed/sent onward 1-3 hops while updates are in flight, sender half moved and used remotely, sender dropped right after a send; oracle = observed values were sent and never decrease per receiver lineage, at quiescence every live receiver on a healthy path shows the last value sent, closure reported only after that value was visible",
             "deterministic simulation + fault injection; monotonicity and convergence-at-quiescence oracle"),
     "C16": ("exploration", "§4 C16", "one broadcast sender, 1-4 subscribers local / 1-2 hops away with send_buffer 1-3 and RECEIVE_BUFFER 1-2, lock-step/eager/slow/stalled readers, joins and leaves, one subscriber behind a cut link; oracle = Ok values increasing, Lagged between Ok(a), Ok(b) iff b != a+1, lock-step and roomy subscribers see everything, send synchronous and unaffected by failed subscribers",
